@@ -48,6 +48,17 @@ Proof.
   exact (reject_reserves_nothing L m p c t lst f HP HO).
 Qed.
 
+Theorem answered_once_reachable L m g p c t (lst f : bool) :
+  Reach L m g -> feas L m g (TrEstablished p c t lst f) ->
+  let os := snd (do_established L m p c t lst f) in
+  (In (CallAccept c t) os \/ In (CallReject c t) os) /\ ~ (In (CallAccept c t) os /\ In (CallReject c t) os).
+Proof.
+  intros R F. pose proof (reach_linv L m g R) as I.
+  apply established_answered_once.
+  - exact (hpend_of_linv L m g p c t lst f I F).
+  - intros d ts. apply (hopen_of_linv L m g p d ts I).
+Qed.
+
 Theorem decision_reachable L m g p c t (lst f : bool) :
   Reach L m g -> feas L m g (TrEstablished p c t lst f) ->
   let os := snd (do_established L m p c t lst f) in
